@@ -745,34 +745,11 @@ def rule_6(ctx):
 
 
 def rule_7(ctx):
+    """A sign after a mantissa with an exponent marker belongs to the number (1.5E+3), everywhere else it is an operator -
+    decided by tokenizing witness formulas with ExcelParser.getTokens as written (wherever its patterns are kept)."""
+    from . import parsetables as P
     tm = ctx.mod('tokenizer')
     fn = tm.func('ExcelParser.getTokens')
-    regexes = []
-    compiled = {}
-    for name in tm.assigns:
-        v = tm.assign(name)
-        if isinstance(v, ast.Call) and ctx.res.resolve(v.func, tm) == 'ext:re.compile' and v.args:
-            try:
-                compiled[name] = ctx.fold(v.args[0], tm)
-            except Unfoldable:
-                pass
-    for n in walk_local(fn):
-        if isinstance(n, ast.Call) and ctx.res.resolve(n.func, tm) in ('ext:re.match', 'ext:re.fullmatch', 'ext:re.search'):
-            try:
-                pat = ctx.fold(n.args[0], tm, env=_local_consts(ctx, fn, tm))
-            except Unfoldable:
-                continue
-            if isinstance(pat, str):
-                regexes.append((n, pat, ctx.res.resolve(n.func, tm)))
-        elif isinstance(n, ast.Call) and isinstance(n.func, ast.Attribute) and n.func.attr in ('match', 'fullmatch', 'search') \
-                and isinstance(n.func.value, ast.Name) and n.func.value.id in compiled and isinstance(compiled[n.func.value.id], str):
-            regexes.append((n, compiled[n.func.value.id], 'ext:re.' + n.func.attr))
-    sn = [r for r in regexes if 'e' in r[1].lower()]
-    if len(sn) != 1:
-        raise AnchorMissing(f'scientific-notation regex: {len(sn)} candidates')
-    node, pat, how = sn[0]
-    rx = re.compile(pat)
-    match = rx.fullmatch if how.endswith('fullmatch') else (rx.match if how.endswith('match') else rx.search)
     classes = {
         'one digit 1-9': ['1E', '9e'],
         'one digit 1-9 with fraction': ['1.5E', '9.25e'],
@@ -782,14 +759,20 @@ def rule_7(ctx):
         'zero integer part with fraction': ['0.5E', '0.25e'],
     }
     nonmembers = ['A1E', 'E', 'SHEET1E', '1', '1.5', 'RATE', '1EE', 'B2e']
+
+    def one_number(m, sign):
+        toks = P.tokens_of(ctx, f'={m}{sign}2')
+        return isinstance(toks, list) and len(toks) == 1 and toks[0][0] == f'{m}{sign}2' and toks[0][1] == 'operand'
     for label, members in classes.items():
-        missed = [s for s in members if not match(s)]
-        ctx.expect(not missed, node, f'SN guard accepts mantissa class: {label}',
+        missed = [m for m in members if not (one_number(m, '+') and one_number(m, '-'))]
+        ctx.expect(not missed, fn, f'SN guard accepts mantissa class: {label}',
                    f'mantissas {missed} are not recognised as the start of a number in scientific '
                    f'notation: the sign that follows is tokenised as an operator (=10E+2 evaluates to 2)')
-    for s in nonmembers:
-        ctx.expect(not match(s), node, f'SN guard rejects {s!r}',
-                   f'{s!r} (a reference/name or a complete number) is taken for a mantissa')
+    for m in nonmembers:
+        toks = P.tokens_of(ctx, f'={m}+2')
+        ok = isinstance(toks, list) and [t[0] for t in toks] == [m, '+', '2'] and toks[1][1] == 'operator-infix'
+        ctx.expect(ok, fn, f'SN guard rejects {m!r}',
+                   f'{m!r} (a reference/name or a complete number) is taken for a mantissa: ={m}+2 is tokenized as {toks!r}')
     ctx.floor(14, 'mantissa classes + non-members')
 
 
